@@ -170,6 +170,10 @@ pub trait Monitor<S: Crystal>: Send {
     fn as_any(&mut self) -> &mut dyn std::any::Any;
 }
 
+/// prefix of the panic message with which `Monitored::score` aborts a stage whose state holds a
+/// non-finite parameter
+pub const NONFINITE_PARAM: &str = "verif: non-finite parameter:";
+
 pub struct Sink<S: Crystal> {
     pub monitor: Box<dyn Monitor<S>>,
     pub stage: usize,
@@ -227,6 +231,15 @@ impl<S: Crystal> ToSVG for Monitored<S> {
 }
 impl<S: Crystal> State for Monitored<S> {
     fn score(&self) -> Option<f64> {
+        // A state whose parameters are not finite numbers is never handed to the real score():
+        // its image enumeration need not terminate on NaN or infinite coordinates, and the
+        // simulator must turn that into a reported stage failure, not into a stalled run.
+        if let Some((i, v)) = self.inner.generate_basis().iter().map(|b| b.get_value()).enumerate().find(|(_, v)| !v.is_finite()) {
+            if self.sink.lock().unwrap().own_call {
+                return None;
+            }
+            panic!("{} basis entry {} holds {}", NONFINITE_PARAM, i, v);
+        }
         let sc = self.inner.score();
         let mut g = self.sink.lock().unwrap();
         let sink = &mut *g;
@@ -401,13 +414,20 @@ pub fn read_params_json(text: &str) -> Result<(J, Vec<(String, f64)>), String> {
         ("cell.ratio", vec!["cell", "ratio"]),
         ("cell.angle", vec!["cell", "angle"]),
     ] {
-        let v = j.path(&path).and_then(|x| x.as_f64()).ok_or(format!("state json: missing {}", name))?;
+        // (a non-finite value is serialised as null: it is read as NaN, which no range contains)
+        let v = match j.path(&path) {
+            Some(J::Null) => f64::NAN,
+            other => other.and_then(|x| x.as_f64()).ok_or(format!("state json: missing {}", name))?,
+        };
         out.push((name.to_string(), v));
     }
     let sites = j.get("occupied_sites").and_then(|a| a.as_arr()).ok_or("state json: occupied_sites")?;
     for (k, s) in sites.iter().enumerate() {
         for f in ["x", "y", "angle"] {
-            let v = s.get(f).and_then(|x| x.as_f64()).ok_or(format!("state json: site{}.{}", k, f))?;
+            let v = match s.get(f) {
+                Some(J::Null) => f64::NAN,
+                other => other.and_then(|x| x.as_f64()).ok_or(format!("state json: site{}.{}", k, f))?,
+            };
             out.push((format!("site{}.{}", k, f), v));
         }
     }
